@@ -246,4 +246,15 @@ class Grammar:
 
 
 def load(ctx):
-    return ctx.memo("grammar", lambda: Grammar(ctx.src("lang/fun/src/parser/fun.lalrpop")))
+    def build():
+        import glob
+        import os
+        g = Grammar(ctx.src("lang/fun/src/parser/fun.lalrpop"))
+        # the Rust helpers the semantic actions may call (lang/fun/src/parser/*.rs)
+        src = []
+        for p in sorted(glob.glob(os.path.join(ctx.root, "lang/fun/src/parser/*.rs"))):
+            with open(p, encoding="utf-8") as f:
+                src.append(f.read())
+        g.helper_src = "\n".join(src)
+        return g
+    return ctx.memo("grammar", build)
